@@ -1,4 +1,43 @@
 import Tfv.Model
+import Tfv.Spec.Sub
+import Tfv.Proofs.SubOrder
+import Tfv.Proofs.Apply
+/-!
+# C02 — applying a concrete function type accepts exactly the subtypes of its input
+Statements only; proofs are one-liners calling lemmas of `Tfv/Proofs/Apply.lean`.
+-/
 namespace Tfv.C02
-theorem placeholder : True := trivial
+open Tfv
+
+/-- `x.unify(a, subtype=True)` on concrete types succeeds exactly when `x ≤ a` (executable form) -/
+theorem C02_unify_iff_sub (L : Lang) (x a : Ty) :
+    unifyC L true x a = .ok () ↔ sub L x a = true := unify_iff_sub L x a
+
+/-- a failed unification raises a type mismatch (TypeMismatch or its subclass SubtypeMismatch), never anything else -/
+theorem C02_unify_error (L : Lang) (x a : Ty) (e : CErr) :
+    unifyC L true x a = .error e → e = .typeMismatch ∨ e = .subtypeMismatch := unifyC_error L true x a e
+
+/-- `(a ** b).apply(x)`: accepted iff `x` is a subtype of `a` in the declared order, and then returns `b` -/
+theorem C02_apply_accepts (L : Lang) (wf : WF L) (a b x : Ty)
+    (ha : wfTy L a = true) (hx : wfTy L x = true) :
+    applyC L (.app FUN [a, b]) x = .ok b ↔ Sub L x a := apply_accepts wf a b x ha hx
+
+/-- … otherwise it raises a type-mismatch error -/
+theorem C02_apply_rejects (L : Lang) (wf : WF L) (a b x : Ty)
+    (ha : wfTy L a = true) (hx : wfTy L x = true) (h : ¬ Sub L x a) :
+    applyC L (.app FUN [a, b]) x = .error .typeMismatch ∨
+    applyC L (.app FUN [a, b]) x = .error .subtypeMismatch := apply_rejects wf a b x ha hx h
+
+/-- applying Top yields Top -/
+theorem C02_top (L : Lang) (x : Ty) : applyC L (.app TOP []) x = .ok (.app TOP []) := apply_top L x
+
+/-- applying any other concrete non-function type is an error -/
+theorem C02_nonfunction (L : Lang) (o : Nat) (args : List Ty) (x : Ty)
+    (h1 : o ≠ FUN) (h2 : o ≠ TOP) :
+    applyC L (.app o args) x = .error .functionApplication := apply_nonfunction L o args x h1 h2
+
+def exL : Lang := builtinDecls ++ [⟨"A", [], none⟩, ⟨"B", [], some 5⟩, ⟨"F", [true], none⟩]
+example : applyC exL (.app FUN [.app 7 [.app 5 []], .app 5 []]) (.app 7 [.app 6 []]) = .ok (.app 5 []) := by rfl
+example : applyC exL (.app FUN [.app 7 [.app 6 []], .app 5 []]) (.app 7 [.app 5 []]) = .error .subtypeMismatch := by rfl
+
 end Tfv.C02
